@@ -105,7 +105,10 @@ def decision_table(fx):
             if len(gets) >= 2:
                 holders.append((n, t))
     if len(holders) != 1:
-        raise F.AnchorLost("compare: the body holding the (evaluated, installed) lookups not found (%d candidates)" % len(holders))
+        # not a per-name decision over two lookups (two passes over the maps, a work list, retain ..): evaluate compare as a whole on
+        # finite maps holding one representative name per abstract case
+        rows = decision_table_collections(fx)
+        return name, fx.thir[name], None, None, rows
     n, t = holders[0]
     EV = AGENT + "::policies::Evaluated"
     IN = AGENT + "::policies::Installed"
@@ -345,3 +348,60 @@ def required_elements(fx, reader_def):
                         if lit.get("k") == "Lit":
                             out.add(lit["v"])
     return out
+
+
+CLASS_NAMES = {("present/ranges=Some", "present"): "N_some_inst", ("present/ranges=Some", "absent"): "N_some_new",
+               ("present/ranges=None", "present"): "N_none_inst", ("present/ranges=None", "absent"): "N_none_new",
+               ("absent", "present"): "N_gone_inst"}
+
+
+def decision_table_collections(fx):
+    """The same table, obtained by running compare on finite abstract maps (vlib/collinterp.py): evaluated = {one name per evaluated
+    case}, installed = {one name per installed case}; a row's result is what the returned Updates holds for that row's name."""
+    from vlib import absint as A, collinterp as CI
+    name = find_compare(fx)
+    t = fx.thir[name]
+    EV = AGENT + "::policies::Evaluated"
+    IN = AGENT + "::policies::Installed"
+    POL = AGENT + "::policies::Policies"
+
+    def nm(k):
+        return ("sym", CLASS_NAMES[k])
+    some_rg = A.some(("tuple", (("sym", "new_ipv4"), ("sym", "new_ipv6"))))
+    ev_some = ("adt", EV, "Evaluated", (("filter_expr", ("sym", "filter_expr")), ("ranges", some_rg)))
+    ev_none = ("adt", EV, "Evaluated", (("filter_expr", ("sym", "filter_expr")), ("ranges", A.NONE)))
+    inst = ("adt", IN, "Installed", (("ipv4", ("sym", "old_ipv4")), ("ipv6", ("sym", "old_ipv6"))))
+    evaluated = CI.cmap([(nm(k), ev_some if k[0].endswith("Some") else ev_none) for k in CLASS_NAMES if k[0] != "absent"])
+    installed = CI.cmap([(nm(k), inst) for k in CLASS_NAMES if k[1] == "present"])
+    self_v = ("adt", POL, "Policies", (("map", evaluated),))
+    inst_v = ("adt", POL, "Policies", (("map", installed),))
+    it = CI.CollInterp(fx, crates=(AGENT,), max_paths=400)
+    rows = []
+    try:
+        paths = [p for p in it.explore(name, args=[self_v, inst_v]) if p.end != "abort"]
+    except A.Undecided as ex:
+        raise F.AnchorLost("compare: neither a per-name decision nor a form the collection interpreter models (%s)" % ex)
+    if not paths:
+        raise F.AnchorLost("compare: no path of the collection-level evaluation ends normally")
+    per_path = []
+    for p in paths:
+        emitted = [x for x in A.walk_value(p.ret) if x[0] == "adt" and x[1].endswith("policies::Update")] if p.ret is not None else []
+        per_path.append(emitted)
+    for (e, i), cn in CLASS_NAMES.items():
+        kinds, vals = set(), []
+        for emitted in per_path:
+            mine = [u for u in emitted if A.vstr(CI.strip(A.fields_of(u).get("name", ("unit",)))) == "«%s»" % cn]
+            if not mine:
+                kinds.add("none")
+                vals.append(A.NONE)
+            elif len(mine) == 1:
+                kinds.add("update" if mine[0][2] == "Update" else "delete")
+                # the name is "the key both maps were looked up with": normalise it for the wiring check
+                vals.append(A.some(mine[0]))
+            else:
+                kinds.add("several")
+        kind = kinds.pop() if len(kinds) == 1 else "ambiguous:%s" % sorted(kinds)
+        rows.append((e, i, {"sp": t.get("sp"), "value": vals[-1] if vals else None, "values": vals, "keys": ["«%s»" % cn], "collections": True}, kind))
+    # (absent, absent): no such name exists in either map; nothing can be emitted for it
+    rows.append(("absent", "absent", {"sp": t.get("sp"), "value": None, "values": [], "collections": True}, "unreachable"))
+    return rows
